@@ -329,7 +329,7 @@ def run_corpus(ctx):
             # must be closed by ')' ';' or a line break).  The observation is recorded in the evidence notes; the generated
             # stream keeps such commands closed (see ASSUMES).  Should the input ever be registered in known_findings.json it is
             # routed through oracle_fail below and reported as KNOWN-FINDING.
-            key = "candidate_differs" if ga != gb else "candidate_equal"
+            key = "proviso_witness_differs" if ga != gb else "proviso_witness_equal"
             ctx.dist[key] = ctx.dist.get(key, 0) + 1
             ctx.notes.append("PROVISO WITNESS (not a finding): %r and %r compile to %s bytes - %s" % (
                 o["a"], o["b"], "DIFFERENT" if ga != gb else "equal", o.get("why", "")))
